@@ -34,16 +34,17 @@ example : holdsReq ⟨false, [.data [97, 10, 98]]⟩ [.inp [97], .resp 200] = fa
 
 /-- the oracle of a whole case (several requests, sequential or concurrent): the model's answer
     `qs.map serve` with one source id per request and as many distinct ids as requests that made
-    `In` calls satisfies `SpecC11.holds`. -/
-theorem http_holds_case (conc : Bool) (qs : List Req) :
-    holds conc qs (qs.map serve) true (withInput (qs.map serve)) = true := by
+    `In` calls and read their body to the end satisfies `SpecC11.holds`. -/
+theorem http_holds_case (conc : Bool) (qs : List Req) (ended : List Bool) :
+    holds conc qs ended (qs.map serve) true (countLive ended (qs.map serve)) = true := by
   have h : allReqs qs (qs.map serve) = true := by
     induction qs with
     | nil => rfl
     | cons q qs ih => simp [allReqs, http_holds, ih]
   simp [holds, h]
 
-example : holds true [⟨false, [.data [97, 10]]⟩, ⟨false, [.data [98]]⟩] [[.inp [97], .resp 200], [.inp [98], .resp 200]] true 1 = false := by
+example : holds true [⟨false, [.data [97, 10]]⟩, ⟨false, [.data [98]]⟩] [true, true]
+    [[.inp [97], .resp 200], [.inp [98], .resp 200]] true 1 = false := by
   decide
 
 /-- **lines, any read sequence**: when no read fails, the events are exactly the lines of the body
